@@ -55,6 +55,7 @@ class Obl:
         self.static = None        # for dataflow obligations: (ok, detail)
         self.split = None         # (label, native input class) for case-split obligations
         self.loopvar = None
+        self.witness = None
 
 
 class State:
@@ -589,7 +590,8 @@ class FuncVC:
         st.env[name] = V("arr", nt, nd=a.nd, elem=a.elem, shape=a.shape, nan=None, origin=a.origin)
 
     def exec_with(self, s, st):
-        region = {"line": s.lineno, "kind": "parallel", "node": s}
+        region = {"line": s.lineno, "kind": "parallel", "node": s,
+                  "ordinal": 1 + sum(1 for r in self.par_regions if r["kind"] == "parallel")}
         self.par_regions.append(region)
         return self.exec_block(s.body, st)
 
